@@ -115,7 +115,8 @@ statechart:
         action: x -= 100
 '''
 # a property statechart bound to the interpreter (part of what is snapshotted): it counts the consumed events in
-# its own context and becomes final at the seventh one - PropertyStatechartError must then be raised by the
+# its own context and becomes final at the seventh one, or 7 time units after it started (its clock follows the
+# interpreter it is bound to, also in a restored copy) - PropertyStatechartError must then be raised by the
 # original and by every restored copy at the same call
 PROP = '''
 statechart:
@@ -130,6 +131,8 @@ statechart:
       - event: event consumed
         action: seen += 1
       - guard: seen >= 7
+        target: failed
+      - guard: after(7)
         target: failed
     - name: failed
       type: final
@@ -180,9 +183,12 @@ def apply(it, op):
 _PROP = []
 
 
+IGNORE = [False]     # family C: the interpreter is created with ignore_contract=True (and its copies must stay so)
+
+
 def fresh(hist):
     REAL[0] = 0
-    it = Interpreter(sc())
+    it = Interpreter(sc(), ignore_contract=IGNORE[0])
     if not _PROP:
         _PROP.append(import_from_yaml(PROP))
     it.bind_property_statechart(_PROP[0])
@@ -195,6 +201,7 @@ def fresh(hist):
 def work(task):
     hists, D, C = task[:3]
     ops = task[3] if len(task) > 3 else OPS
+    IGNORE[0] = len(task) > 4 and task[4] == 'ignore'
     res = {'states': 0, 'transitions': 0, 'outcomes': collections.Counter(), 'violations': [],
            'nviol': 0}
     seen_states = set()
@@ -269,7 +276,10 @@ def run(tier, seed):
     tasks = [(hists[i::nchunks], D, C) for i in range(nchunks)]
     hists_b = [('cstart',) + h for d in range(0, D) for h in itertools.product(OPSB, repeat=d)]
     tasks += [(hists_b[i::16], D, C, OPSB) for i in range(16)]
-    hists = hists + hists_b
+    # family C: contracts ignored (the chart has an action that breaks an invariant: 'bad')
+    hists_c = [h for d in range(0, D) for h in itertools.product(OPS, repeat=d)]
+    tasks += [(hists_c[i::16], D, C, OPS, 'ignore') for i in range(16)]
+    hists = hists + hists_b + hists_c
     results = harness.pmap(work, tasks)
     agg = harness.Agg()
     viols = []
